@@ -1,0 +1,13 @@
+//go:build verif
+
+package funcGen
+
+// VerifClearUnary removes all prefix operators (before the parser is created), so that a copy of a
+// generator can be given a different set with AddUnaryFunc.
+func (g *FunctionGenerator[V]) VerifClearUnary() *FunctionGenerator[V] {
+	if g.parser != nil {
+		panic("parser already created")
+	}
+	g.unary = nil
+	return g
+}
